@@ -248,6 +248,8 @@ func amountClass(cls string) sdkmath.Int {
 		return sdkmath.NewInt(1000)
 	case "big":
 		return sdkmath.NewIntFromBigInt(new(big.Int).Exp(big.NewInt(10), big.NewInt(30), nil))
+	case "vast": // 10^75: fits 256 bits, and its Dec form still fits LegacyDec's 315 bits
+		return sdkmath.NewIntFromBigInt(new(big.Int).Exp(big.NewInt(10), big.NewInt(75), nil))
 	case "huge":
 		return sdkmath.NewIntFromBigInt(new(big.Int).Sub(new(big.Int).Lsh(big.NewInt(1), 255), big.NewInt(1)))
 	}
